@@ -42,7 +42,7 @@ S == 2      \* token of the streaming call
 
 E0 == [id |-> "", idn |-> -1, h |-> 1, b |-> 0, s |-> 0, t |-> 0, r |-> 0, code |-> -1, msg |-> "", ndet |-> 0,
        pay |-> "", md |-> <<>>, tmd |-> <<>>, meth |-> "", src |-> "", dst |-> "", to |-> "", c |-> 0,
-       badmd |-> 0, badtmd |-> 0, rtype |-> "", rec |-> 0, nxt |-> 0]
+       badmd |-> 0, badtmd |-> 0, rtype |-> "", rec |-> 0, nxt |-> 0, rs |-> "", ns |-> "", rret |-> ""]
 IdStr(n) == IF n = 1 THEN "1" ELSE IF n = 2 THEN "2" ELSE "3"
 CEnv(n, kind) == [E0 EXCEPT !.id = IdStr(n), !.idn = n, !.meth = MethOfKind(kind), !.src = cfg.cli, !.dst = cfg.srv]
 SEnv(n, kind) == [E0 EXCEPT !.id = IdStr(n), !.idn = n, !.meth = MethOfKind(kind), !.src = cfg.srv, !.dst = cfg.cli]
